@@ -1028,6 +1028,10 @@ fn handle_ast(o: &mut Out, path: &str) {
             syn::Item::Enum(e) => {
                 let vs: Vec<String> = e.variants.iter().map(|v| format!("{}/{}", v.ident, v.fields.len())).collect();
                 o.put("enum", &format!("{} @@ {}", e.ident, vs.join(" ")));
+                for v in &e.variants {
+                    let attrs: Vec<String> = v.attrs.iter().filter(|a| !a.path().is_ident("doc")).map(|a| ts(a)).collect();
+                    o.put("enumv", &format!("{} @@ {} @@ {}", e.ident, v.ident, attrs.join(" ;; ")));
+                }
             }
             syn::Item::Struct(s) => {
                 let fs: Vec<String> = s.fields.iter().map(|f| format!("{}:{}", f.ident.as_ref().map(|i| i.to_string()).unwrap_or_default(), ts(&f.ty))).collect();
